@@ -235,7 +235,7 @@ class SQLiteDateConverter(dbapiprovider.DateConverter):
             return datetime.date(*time_tuple[:3])
         except: return val
     def py2sql(converter, val):
-        return val.strftime('%Y-%m-%d')
+        return val.isoformat()
 
 class SQLiteTimeConverter(dbapiprovider.TimeConverter):
     def sql2py(converter, val):
